@@ -5,4 +5,4 @@ Require Extraction.
 Require Import ExtrOcamlBasic.
 Extraction "model.ml"
   linspace_half grid nonsym_triples sym_triples on_simplex centre_in_grid
-  chunk_tasks chunk_tasks_by tag sort_by_index computation collect parmap parmap_by parmap_checked serial transpose schedule_pool.
+  chunk_tasks chunk_tasks_by tag sort_by_index computation collect parmap parmap_default parmap_by parmap_checked koala_chunk_size n_chunks_exact serial transpose schedule_pool.
